@@ -35,15 +35,28 @@ type faultyBackend struct {
 	inner backends.CacheBackend
 	mu    sync.Mutex
 	fail  map[string]bool
+	slow  map[string]time.Duration // fail only after this delay (a later failure of the same restore)
 	gets  int
+	busy  int // Gets that have not returned yet
 }
 
 func (f *faultyBackend) TypeName() string { return "faulty-" + f.inner.TypeName() }
 func (f *faultyBackend) Get(ctx context.Context, path, key string) (io.ReadCloser, error) {
 	f.mu.Lock()
 	f.gets++
+	f.busy++
 	bad := f.fail[key]
+	delay, isSlow := f.slow[key]
 	f.mu.Unlock()
+	defer func() {
+		f.mu.Lock()
+		f.busy--
+		f.mu.Unlock()
+	}()
+	if isSlow {
+		time.Sleep(delay)
+		return nil, errors.New("injected fault: blob unreadable (late)")
+	}
 	if bad {
 		return nil, errors.New("injected fault: blob unreadable")
 	}
@@ -67,6 +80,7 @@ func init() {
 		}
 		files := strList(req["files"])     // relative paths below the output directory
 		missing := strList(req["missing"]) // subset whose blob cannot be read
+		missingSlow := strList(req["missingSlow"]) // subset whose read fails only after 150 ms
 		timeoutMs, _ := req["timeoutMs"].(float64)
 		if timeoutMs <= 0 {
 			timeoutMs = 4000
@@ -94,7 +108,7 @@ func init() {
 		if err != nil {
 			return nil, err
 		}
-		fb := &faultyBackend{inner: fs, fail: map[string]bool{}}
+		fb := &faultyBackend{inner: fs, fail: map[string]bool{}, slow: map[string]time.Duration{}}
 		cas := caching.NewCas(fb)
 		h := outhandlers.NewDirectoryOutputHandler(cas)
 		target := model.Target{Label: label.TargetLabel{Package: "pkg", Name: "t"}}
@@ -107,6 +121,9 @@ func init() {
 		}
 		for _, rel := range missing {
 			fb.fail[hashing.HashBytes(content(rel))] = true
+		}
+		for _, rel := range missingSlow {
+			fb.slow[hashing.HashBytes(content(rel))] = 150 * time.Millisecond
 		}
 		done := make(chan error, 1)
 		go func() { done <- h.Load(ctx, target, out, nil) }()
@@ -136,6 +153,20 @@ func init() {
 			}
 		case <-time.After(time.Duration(timeoutMs) * time.Millisecond):
 			res["outcome"] = "hang"
+		}
+		// downloads that are still running after Load returned belong to this request: wait for them, so that a crash
+		// they cause (e.g. a send on a channel Load has closed) is attributed to it
+		if res["outcome"] != "hang" {
+			for i := 0; i < 200; i++ {
+				fb.mu.Lock()
+				b := fb.busy
+				fb.mu.Unlock()
+				if b == 0 {
+					break
+				}
+				time.Sleep(5 * time.Millisecond)
+			}
+			time.Sleep(20 * time.Millisecond)
 		}
 		fb.mu.Lock()
 		res["gets"] = fb.gets
